@@ -260,7 +260,16 @@ func vrtSSO(pf vrtSSOProfile) {
 	st.sp = sp
 	st.created = &vrtAuthReq{id: vrtStr("created.id")}
 	vrtNominalSigAlg = !pf.faults
+	// history (content profile, C06 / C15): nothing | an earlier AuthnRequest of the same service
+	// provider, served under another host by a provider that derives its issuer from the request
+	hist := 0
+	if pf.content && !pf.acs && (vrtProp("C06") || vrtProp("C15")) && doc != nil && vrtBool("hist.sso") {
+		hist = 4
+		vrtHostIssuer = true
+		vrtEarlierEntityID = string(doc.EntityID)
+	}
 	p := vrtNewProviderWith(st, pf.signature)
+	vrtEarlierRequest(p, st, hist)
 
 	method := vrtStr("req.method")
 	rb := vrtNewRequest("req", method, vrtSSOPath)
